@@ -20,7 +20,7 @@ FILES = {
     "C14": [("C14Generic", []), ("C14X86", []), ("C14A64", []), ("C14RV", []), ("C14Loader", []), ("C14LoaderA64", []), ("C14LoaderA64Names", []), ("C14LoaderA64Compose", [])],
     "C15": [("C15", ["Scc.Fun.Check", "Scc.Fun.Typing"])],
     "C16": [("C16", ["Scc.Fun.Lex", "Scc.Fun.Parse", "Scc.Fun.Print"]), ("C18Cur", ["Scc.Generated.Parser"])],
-    "C18": [("C18", ["Scc.Fun.Parse"]), ("C18Cur", ["Scc.Generated.Parser"]), ("C12Codegen", []), ("C12Final", []), ("FunSafety", [])],
+    "C18": [("C18", ["Scc.Fun.Parse"]), ("C18Cur", ["Scc.Generated.Parser"]), ("C12Codegen", []), ("C12Final", []), ("C18Fuel", []), ("FunSafety", [])],
     "C19": [("C19", ["Scc.Fun2Core.Size"]), ("C19Shrink", []), ("C19Rest", [])],
     # C12 = the chain of preservation/no-panic theorems of the individual passes
     "C12": [("C12Final", []), ("C12", ["Scc.Pipeline"]), ("C12Codegen", []), ("C12Fun2Core", []), ("C12Fun2CoreStrict", []), ("C12Mid", []), ("C15", ["Scc.Fun.Check"]), ("C02", ["Scc.Fun2Core.Model"]), ("C03", ["Scc.Core.Focus"]), ("C04", ["Scc.Core2AxCut.Model"]), ("C05", ["Scc.AxCut.Linearize"])],
